@@ -178,3 +178,93 @@ CONTRACTS[NC + "__init__"] = dict(
                                                       "self.notes[0].octave == 4"),
                             ("a-note-list-of-its-own", "is_fresh(self.notes)")])],
     modifies=["param:self"], properties=["C12", "C15"], battery="nc_blank")
+
+# '==' on bars: the entry lists are equal entry by entry (beat, duration, and the containers by NoteContainer's ==)
+_EK = ["[real,real,None]", "[real,real,NC1]"]
+CLASSES["NC1"] = {"class": "mingus.containers.note_container.NoteContainer", "fields": {"notes": "[Note]"}}
+CLASSES["BarE"] = {"class": "mingus.containers.bar.Bar", "fields": {"bar": "list[any]"}}
+
+
+def _eq_shapes():
+    import itertools
+    out = []
+    for n in (0, 1, 2):
+        for m in (0, 1, 2):
+            for a in itertools.product(_EK, repeat=n):
+                for b in itertools.product(_EK, repeat=m):
+                    out.append({"field_types": {"self.bar": "[" + ",".join(a) + "]", "other.bar": "[" + ",".join(b) + "]"}})
+    return out
+
+
+_ENT_EQ = ("(self.bar[i][0] == other.bar[i][0] and self.bar[i][1] == other.bar[i][1] and "
+           "(is_None(self.bar[i][2]) == is_None(other.bar[i][2])) and "
+           "(is_None(self.bar[i][2]) or is_None(other.bar[i][2]) or "
+           "pitch(self.bar[i][2].notes[0]) == pitch(other.bar[i][2].notes[0])))")
+CONTRACTS[BAR + "__eq__"] = dict(
+    params={"self": "BarE", "other": "BarE"}, returns="bool", modifies=[],
+    requires="all([e[2] is None or is_name(e[2].notes[0].name) for e in self.bar]) and "
+             "all([e[2] is None or is_name(e[2].notes[0].name) for e in other.bar])",
+    ensures=[("same-entries-in-the-same-order",
+              "result == (len(self.bar) == len(other.bar) and all([%s for i in range(len(self.bar))]))" % _ENT_EQ)],
+    split=_eq_shapes(), split_is_domain=True, properties=["C13", "C14"], battery="bar_pairs",
+    notes="domain: bars of 0..2 entries each; an entry is a rest or a container of one note (arbitrary values and pitches)")
+
+# '==' on tracks: bar lists equal bar by bar (Bar.__eq__: entry lists equal entry by entry)
+def _tr_eq_shapes():
+    bars = ["[]", "[" + _EK[0] + "]", "[" + _EK[1] + "]"]
+    tracks = [[]] + [[b] for b in bars]
+    out = []
+    for a in tracks:
+        for b in tracks:
+            ft = {"self.bars": "[" + ",".join(["BarE"] * len(a)) + "]", "other.bars": "[" + ",".join(["BarE"] * len(b)) + "]"}
+            for i, sh in enumerate(a):
+                ft["self.bars.%d.bar" % i] = sh
+            for i, sh in enumerate(b):
+                ft["other.bars.%d.bar" % i] = sh
+            out.append({"field_types": ft})
+    return out
+
+
+_BAR_EQ = ("(len(self.bars[k].bar) == len(other.bars[k].bar) and all([%s for i in range(len(self.bars[k].bar))]))"
+           % _ENT_EQ.replace("self.bar[", "self.bars[k].bar[").replace("other.bar[", "other.bars[k].bar["))
+CONTRACTS[TR + "__eq__"] = dict(
+    params={"self": "TrackX", "other": "TrackX"}, returns="bool", modifies=[],
+    requires="all([all([e[2] is None or is_name(e[2].notes[0].name) for e in b.bar]) for b in self.bars]) and "
+             "all([all([e[2] is None or is_name(e[2].notes[0].name) for e in b.bar]) for b in other.bars])",
+    ensures=[("same-bars-in-the-same-order",
+              "result == (len(self.bars) == len(other.bars) and all([%s for k in range(len(self.bars))]))" % _BAR_EQ)],
+    split=_tr_eq_shapes(), split_is_domain=True, properties=["C14"], battery="track_pairs",
+    notes="domain: tracks of 0..1 bars of 0..1 entries (a rest or a one-note container), arbitrary values and pitches; "
+          "longer tracks: run-time battery")
+
+# '==' on compositions: track lists equal track by track (Track.__eq__ -> Bar.__eq__ -> entries)
+CLASSES["CompE"] = {"class": "mingus.containers.composition.Composition", "fields": {"tracks": "list[any]"}}
+
+
+def _co_eq_shapes():
+    bars = ["[]", "[" + _EK[0] + "]", "[" + _EK[1] + "]"]
+    tracks = [None, []] + [[b] for b in bars]      # None: no track at all
+    out = []
+    for a in tracks:
+        for b in tracks:
+            ft = {"self.tracks": "[]" if a is None else "[TrackX]", "other.tracks": "[]" if b is None else "[TrackX]"}
+            for side, t in (("self", a), ("other", b)):
+                if t is not None:
+                    ft["%s.tracks.0.bars" % side] = "[" + ",".join(["BarE"] * len(t)) + "]"
+                    for i, sh in enumerate(t):
+                        ft["%s.tracks.0.bars.%d.bar" % (side, i)] = sh
+            out.append({"field_types": ft})
+    return out
+
+
+_TR_EQ = ("(len(self.tracks[t].bars) == len(other.tracks[t].bars) and all([%s for k in range(len(self.tracks[t].bars))]))"
+          % _BAR_EQ.replace("self.bars[", "self.tracks[t].bars[").replace("other.bars[", "other.tracks[t].bars["))
+_CO_VALID = "all([all([all([e[2] is None or is_name(e[2].notes[0].name) for e in b.bar]) for b in tr.bars]) for tr in %s.tracks])"
+CONTRACTS[CO + "__eq__"] = dict(
+    params={"self": "CompE", "other": "CompE"}, returns="bool", modifies=[],
+    requires=(_CO_VALID % "self") + " and " + (_CO_VALID % "other"),
+    ensures=[("same-tracks-in-the-same-order",
+              "result == (len(self.tracks) == len(other.tracks) and all([%s for t in range(len(self.tracks))]))" % _TR_EQ)],
+    split=_co_eq_shapes(), split_is_domain=True, properties=["C14"], battery="comp_pairs",
+    notes="domain: compositions of 0..1 tracks of 0..1 bars of 0..1 entries, arbitrary values and pitches; larger ones: "
+          "run-time battery")
